@@ -15,7 +15,7 @@ pub const INFO: CheckInfo = CheckInfo {
     rule: "explicit enumeration of ALL gz operation sequences up to a depth. Read side: files {one gzip member, two members, member boundary at every offset of an 8-byte buffer, gzip + trailing garbage, plain bytes, empty, truncated member, member with header fields} x gzbuffer {8, 9, 16, 64} x sequences over {gzread(1|3|buffer|2*buffer+1), gzfread(3x2), gzgetc, gzungetc, gzgets(2|5|40), gzseek(SET 0|10|len+3, CUR -2|+2|+buffer), gzrewind, gztell, gzeof, gzdirect, gzclearerr}. Write side: modes {w, w9h, wT, a onto an existing member} x gzbuffer {8, 16} x sequences over {gzwrite(1|buffer-1|buffer|2*buffer+1), gzfwrite, gzputc, gzputs, gzflush(sync|full|finish), gzsetparams, gzseek(CUR +3|+buffer+1), gztell}; gzclose. Oracles: (1) reference model R5 (logical byte stream + position + push-back) predicts every byte returned and every gztell for well-formed files, and the written file must be a valid member sequence (R2+R3; plain bytes in transparent mode) decoding to exactly the logical stream written; (2) the same sequence on zlib-ng's gz layer, compared call by call (return values, bytes, gzeof, gztell), settles the under-documented corners (truncated files, error stickiness). Files live in memfds; path-based opens (incl. a non-UTF-8 file name) use a temporary directory removed by the run. distinct_nontrivial = distinct (file, buffer, observation trace) outcomes.",
     assumptions: &["R5/R2/R3 trusted; zlib-ng's gz layer (2.3.3) as tie-breaker", "sequences deeper than the bound, other buffer sizes and other argument values are not covered; gzprintf is not covered"],
     bound_quick: "read: depth 3 over 19 operations, 9 files x 4 buffer sizes; write: depth 3 over 14 operations, 4 modes x 2 buffer sizes",
-    bound_thorough: "read depth 4, write depth 4",
+    bound_thorough: "read: depth 4 over the full 22-operation alphabet on every main file and buffer size, depth 5 over the basic alphabet with the 8-byte buffer; write: depth 4 (17 operations), depth 5 over the basic alphabet in mode wb",
 };
 
 #[derive(Clone, Copy, Debug, PartialEq, Eq)]
@@ -323,7 +323,11 @@ fn read_side(ctx: &mut Ctx) {
                     vec![(read_alphabet(bufsize as usize, llen, false), 2)]
                 }
             } else if main {
-                vec![(read_alphabet(bufsize as usize, llen, true), 3), (read_alphabet(bufsize as usize, llen, false), 4)]
+                let mut p = vec![(read_alphabet(bufsize as usize, llen, true), 4)];
+                if bufsize == 8 {
+                    p.push((read_alphabet(bufsize as usize, llen, false), 5));
+                }
+                p
             } else {
                 vec![(read_alphabet(bufsize as usize, llen, false), 3)]
             };
@@ -488,10 +492,20 @@ fn write_side(ctx: &mut Ctx) {
             let mut alpha = vec![W::Write(1), W::Write(b - 1), W::Write(b), W::Write(2 * b + 1), W::Putc, W::Puts, W::Flush(Z_SYNC_FLUSH), W::Flush(Z_FINISH), W::SetParams(1, 0), W::SeekCur(3), W::Tell];
             let full = [W::Fwrite(3, 2), W::Flush(Z_FULL_FLUSH), W::SeekCur(b as i64 + 1), W::SetParams(9, 2), W::Write(0), W::Write(300)];
             let depth = if quick { 3 } else { 4 };
+            let basic = alpha.clone();
             if !quick || mode == "wb" {
                 alpha.extend(full);
             }
+            let mut plans: Vec<(Vec<W>, usize, usize)> = vec![(alpha.clone(), depth, 0)];
+            if !quick && mode == "wb" && bufsize == 8 {
+                // thorough: also every sequence of exactly 5 operations over the basic alphabet
+                plans.push((basic, 5, 5));
+            }
+            for (alpha, depth, min_len) in plans {
             sequences(&alpha, depth, |ops| {
+                if ops.len() < min_len {
+                    return;
+                }
                 ctx.case(
                     "gz-write",
                     || format!("gzdopen(\"{mode}\"){} gzbuffer({bufsize}) ; {ops:?} ; gzclose", if append { " onto an existing member" } else { "" }),
@@ -572,6 +586,7 @@ fn write_side(ctx: &mut Ctx) {
                     },
                 );
             });
+            }
         }
     }
 }
